@@ -523,7 +523,17 @@ func (fr *Frame) instr(in ssa.Instruction) bool {
 		v := in.(ssa.Value)
 		t, ok := fr.pureTerm(in, fr.val)
 		if !ok {
-			fr.defineFresh(v)
+			n := fr.defineFresh(v)
+			if cv, isConv := in.(*ssa.Convert); isConv {
+				from, to := c.sortOf(cv.X.Type()), c.sortOf(cv.Type())
+				if from == "Str" && to == "Slice" {
+					// []byte(s): a fresh slice of the string's length
+					c.assert(implies(fr.pc, "(= (slen "+n+") (strlen "+fr.val(cv.X)+"))"))
+				}
+				if from == "Slice" && to == "Str" {
+					c.assert(implies(fr.pc, "(= (strlen "+n+") (slen "+fr.val(cv.X)+"))"))
+				}
+			}
 			break
 		}
 		fr.define(v, t)
